@@ -52,7 +52,15 @@ log = _unary('log', _log, lambda x, r: [z3.Implies(x > 0, _exp(r) == x)])
 def sqrt(x):
     if isinstance(x, SArr):
         src = x.snapshot()
-        return SArr(Cell(lambda *i: _sqrt(_to_real(src.at(*i), src.kind)), src.shape, 'real'))
+        out = SArr(Cell(lambda *i: _sqrt(_to_real(src.at(*i), src.kind)), src.shape, 'real'))
+        fact = lambda *i: z3.Implies(_to_real(src.at(*i), src.kind) >= 0, z3.And(out.at(*i) >= 0, out.at(*i) * out.at(*i) == _to_real(src.at(*i), src.kind)))
+        if src.ndim == 1:
+            cur().assume(forall_range(0, src.shape[0], lambda i: fact(i), 'i'))
+        elif src.ndim == 2:
+            cur().assume(forall_range(0, src.shape[0], lambda i: forall_range(0, src.shape[1], lambda j: fact(i, j), 'j'), 'i'))
+        elif src.ndim == 0:
+            cur().assume(fact())
+        return out
     t = _real(x)
     r = _sqrt(t)
     cur().oblige('call-pre[sqrt of non-negative]', t >= 0)
